@@ -541,7 +541,7 @@ func c03Jobs(tier string) []string {
 			jobs = append(jobs, fmt.Sprintf("active:%d:%d:%d", si, depth, first))
 		}
 	}
-	jobs = append(jobs, "strays:0", "strays:1")
+	jobs = append(jobs, "strays:0", "strays:1", "cross")
 	return jobs
 }
 
@@ -647,6 +647,22 @@ func c03Run(job, tier string, deadline time.Time) *engine.Result {
 			}
 		}
 		rec([]int{first})
+	case "cross":
+		for _, cookie := range []bool{false, true} {
+			for _, v := range c03CrossVariants {
+				for _, p := range c03PeerISS {
+					f := c03Cross(cookie, v, p)
+					r.Execs++
+					r.Transitions += 2
+					r.Nontrivial++
+					outcomes[engine.Hash(cookie, v, f == nil)] = true
+					if f != nil {
+						report(f, map[string]interface{}{"job": job, "cross": v, "cookie": cookie, "piss": p})
+					}
+				}
+			}
+		}
+		r.Sample(map[string]interface{}{"cross": "the numbers of a handshake on (X, port A) presented in a bare ACK from another port / another address / to another listening port, normal and cookie mode, 5 peer ISS"})
 	case "strays":
 		listener := parts[1] == "1"
 		for fl := 0; fl < 64; fl++ {
@@ -668,12 +684,14 @@ func c03Run(job, tier string, deadline time.Time) *engine.Result {
 
 func c03Replay(rp json.RawMessage) *engine.Violation {
 	var p struct {
-		Job   string
-		Seq   []int
-		Opts  []byte
-		Piss  uint32
-		Flags int
-		Plen  int
+		Job    string
+		Seq    []int
+		Opts   []byte
+		Piss   uint32
+		Flags  int
+		Plen   int
+		Cross  string
+		Cookie bool
 	}
 	if json.Unmarshal(rp, &p) != nil {
 		return nil
@@ -693,6 +711,8 @@ func c03Replay(rp json.RawMessage) *engine.Violation {
 		f, _, _ = c03Active(c03StackISS[si], 0x7ffffff0, p.Seq, c03ActiveAlphabet())
 	case "strays":
 		f, _ = c03Stray(parts[1] == "1", uint8(p.Flags), p.Plen)
+	case "cross":
+		f = c03Cross(p.Cookie, p.Cross, p.Piss)
 	}
 	if f == nil {
 		return nil
